@@ -594,3 +594,27 @@ Proof.
 Qed.
 
 End Final.
+
+(* ------------------------------------------------------------------ the library's own stencils are centrally symmetric *)
+Section MakersSym.
+Variable F : Type.
+Variables (zero one : F) (add mul sub : F -> F -> F) (opp : F -> F).
+Variable of_nat : nat -> F.
+Variable sixth : F -> F.
+
+Lemma diffusion_stencil_symmetric eps C S :
+  value_symmetric F zero (diffusion_stencil_2d F one add mul sub opp of_nat sixth eps C S) 2 /\
+  length (diffusion_stencil_2d F one add mul sub opp of_nat sixth eps C S) = 3 ^ 2.
+Proof.
+  split; [|reflexivity]. intros t Ht. simpl in Ht.
+  do 9 (destruct t as [|t]; [reflexivity|]). lia.
+Qed.
+
+Lemma laplace27_symmetric :
+  value_symmetric F zero (laplace_stencil_27pt F one opp of_nat) 3 /\
+  length (laplace_stencil_27pt F one opp of_nat) = 3 ^ 3.
+Proof.
+  split; [|reflexivity]. intros t Ht. simpl in Ht.
+  do 27 (destruct t as [|t]; [reflexivity|]). lia.
+Qed.
+End MakersSym.
